@@ -37,7 +37,7 @@ type Case struct {
 // Outcome is the worker's answer for one case.
 type Outcome struct {
 	ID           int            `json:"id"`
-	Class        string         `json:"class"` // ok | stall | undelivered | setup | nokey
+	Class        string         `json:"class"` // ok | stall | undelivered | setup | late | nokey
 	Disconnected bool           `json:"disconnected"`
 	H0           int64          `json:"h0"`
 	T            int64          `json:"t"`
@@ -49,6 +49,8 @@ type Outcome struct {
 	Text         string         `json:"text"`
 	Detail       string         `json:"detail"`
 	WallMS       int64          `json:"wall_ms"`
+	Late         bool           `json:"late"`     // the script arrived after the node left the addressed height (after 4 attempts)
+	Attempts     int            `json:"attempts"` // attempts needed (late ones do not count)
 	Recycle      bool           `json:"recycle"`
 }
 
@@ -297,7 +299,20 @@ func prsDigest(p *p2p.Peer, t int64) string {
 		baShape(r.Prevotes), baShape(r.Precommits), r.LastCommitRound, baShape(r.LastCommit), r.CatchupCommitRound, baShape(r.CatchupCommit))
 }
 
+// runCase runs one case; when the script of a live/ahead case reaches the node
+// only after the node has left the addressed height (an overloaded machine), the
+// attempt does not count and the case is run again with a fresh attacker.
 func runCase(n *Node, hw *heightWatch, cfg interface{}, c *Case) (o *Outcome) {
+	for attempt := 1; ; attempt++ {
+		o = runAttempt(n, hw, c, attempt)
+		if !o.Late || attempt == 4 {
+			o.Attempts = attempt
+			return o
+		}
+	}
+}
+
+func runAttempt(n *Node, hw *heightWatch, c *Case, attempt int) (o *Outcome) {
 	start := time.Now()
 	o = &Outcome{ID: c.ID, Class: "ok"}
 	defer func() {
@@ -305,7 +320,11 @@ func runCase(n *Node, hw *heightWatch, cfg interface{}, c *Case) (o *Outcome) {
 		o.Hend = n.Height()
 		o.Recycle = o.Hend > recycleHeight
 	}()
-	att := newAttackerSwitch(n.P2PConf, fmt.Sprintf("127.0.0.1:%d", 20000+c.ID%20000))
+	listen := fmt.Sprintf("127.0.0.1:%d", 20000+(c.ID*4+attempt)%40000)
+	if c.Family == "handshake" {
+		listen = c.Val // the attacker's NodeInfo.ListenAddr as sent in the node-info handshake
+	}
+	att := newAttackerSwitch(n.P2PConf, listen)
 	defer func() {
 		att.stop()
 		dl := time.Now().Add(5 * time.Second)
@@ -333,6 +352,22 @@ func runCase(n *Node, hw *heightWatch, cfg interface{}, c *Case) (o *Outcome) {
 	}
 	ctx := newCtx(n, c.Mode, h0, c.ID)
 	o.H0, o.T = h0, ctx.T
+	sp0 := specOf(c.Type)
+	if c.Family == "handshake" {
+		// nothing is sent on any channel: the case is the handshake itself
+		st := n.Store.Height()
+		dl := time.Now().Add(caseDeadline)
+		for n.Store.Height() < st+3 {
+			if time.Now().After(dl) {
+				o.Class, o.Detail = "stall", "no 3 further blocks after the handshake"
+				break
+			}
+			time.Sleep(10 * time.Millisecond)
+		}
+		o.Blocks = n.Store.Height() - st
+		o.Disconnected = att.nodeSidePeer(n) == nil
+		return
+	}
 	g := findCase(ctx, c)
 	if g == nil {
 		o.Class, o.Detail = "nokey", "the generator has no case "+c.Key+" for the live node"
@@ -376,6 +411,12 @@ func runCase(n *Node, hw *heightWatch, cfg interface{}, c *Case) (o *Outcome) {
 	}
 	tDel := time.Now()
 	storeAtDel := n.Store.Height()
+	if hd := n.Height(); att.nodeSidePeer(n) != nil && sp0 != nil && sp0.group == "consensus" &&
+		((c.Mode == "live" && hd != ctx.T) || (c.Mode == "ahead" && hd > ctx.T)) {
+		o.Late, o.Class = true, "late"
+		o.Detail = fmt.Sprintf("the script for height %d reached the node at height %d", ctx.T, hd)
+		return
+	}
 	// give the few microseconds between the marker and a message on another channel
 	time.Sleep(5 * time.Millisecond)
 	o.PRS = prsDigest(att.nodeSidePeer(n), ctx.T)
